@@ -286,10 +286,14 @@ func Check(env *core.Env, rep *core.Report) *core.Result {
 			samples.Add(map[string]interface{}{"before": j.s.Bdur, "commands": j.s.Jdur, "after": j.s.Adur, "allow_failure": j.s.Allow, "shape": j.shape, "expected_tokens": j.s.tokens(), "expected_ret": j.s.Ret})
 		}
 	})
+	// the timeout of a task that a watcher starts for an event (through the binary)
+	watchRuns := watchRun(env, rep)
+	atomic.AddInt64(&runs, int64(watchRuns))
 	gen, dist, nruns, cmds := core.TLCTotals()
 	cov := map[string]interface{}{
 		"states": dist, "transitions": gen, "tlc_runs": nruns,
 		"traces_validated_against_impl":      int(runs),
+		"watcher_started_runs":               watchRuns,
 		"mismatches_rerun_alone_at_4x_scale": int(confirmations),
 		"configurations_in_model":            len(scens),
 		"evaluations":                        int(runs),
